@@ -57,6 +57,10 @@ func Skip(data []byte, wt WireType) (int, error) {
 	case WTVarInt:
 		for i, v := range data {
 			if v&0x80 == 0 {
+				if i == 9 && v > 1 {
+					// The tenth byte can only carry the top bit of a 64 bit value
+					return 0, fmt.Errorf("VarInt overflows 64 bits")
+				}
 				return i + 1, nil
 			}
 			if i >= 9 {
